@@ -19,6 +19,10 @@
   * `C17_pitch_class`   : the base colour of a mapped key's LED is the class colour (C / black / white, or white on the
                           "Control" mapping) of base note + semitone + 12·octave when that is a MIDI note;
   * `C17_unavailable`   : and the 'unavailable' colour when it is not, for a key bound to no action;
+  * `C17_action_key`    : the LED of the key an action is bound to (when it is not also a note key) shows the indicator
+                          colour of the *current* octave / semitone / mapping / channel (`indicator`): white1 / white2 /
+                          white3 by the number of steps, the channel colour (dimmed at the end of the range), red for
+                          panic — "last paint of that action wins" over the paint list `Led.actionPaints`;
   * `C17_external`, `C17_other_channel` : corollaries of the refinement for the MIDI-input highlights;
   * `C17_channel_colours` : the sixteen channel colours (exact table);
   * `C17_source_facts`  : the two facts regenerated from the sources that select the checked behaviour.
@@ -235,6 +239,89 @@ theorem C17_other_channel (d : Dev) (devName : String) (leds : List String) (shi
   simp [this]
 
 
+/-- an LED that belongs to no note key of the mapping is never highlighted -/
+theorem lit_false_of_no_key {α} (leds : List String) (m : Mapping) (g : α → Nat) (L : List α) (i : Nat)
+    (hno : ∀ q ∈ m.midi, q.1.1 = "" → alookup q.1.2 (indexMap leds) ≠ some i) :
+    lit (indexMap leds) m g L i = false := by
+  unfold lit
+  apply List.any_eq_false.mpr
+  intro p _
+  simp only [Bool.not_eq_true]
+  apply List.any_eq_false.mpr
+  intro code hcode
+  unfold keysWithNote at hcode
+  obtain ⟨q, hq, rfl⟩ := List.mem_map.mp hcode
+  have hq' := List.mem_filter.mp hq
+  have hs : q.1.1 = "" := by
+    have := hq'.2; simp only [decide_eq_true_eq] at this; exact this.1
+  simpa using hno q hq'.1 hs
+
+theorem unlit_of_no_key (d : Dev) (leds : List String) (m : Mapping) (i : Nat)
+    (hno : ∀ q ∈ m.midi, q.1.1 = "" → alookup q.1.2 (indexMap leds) ≠ some i) : Unlit d leds m i :=
+  ⟨lit_false_of_no_key leds m _ _ i hno, fun _ => lit_false_of_no_key leds m _ _ i hno⟩
+
+/-! ### the indicator keys (octave, semitone, mapping, channel, multi-note, panic) -/
+
+/-- what the key bound to an action shows: the state of the setting it changes -/
+def indicator (d : Dev) : Action → Option RGB
+  | .panic => some red
+  | .octaveUp => some (if d.octave > 0 then (if d.octave = 1 then white2 else white3) else white1)
+  | .octaveDown => some (if d.octave < 0 then (if d.octave = -1 then white2 else white3) else white1)
+  | .semitoneUp => some (if d.semitone > 0 then (if d.semitone = 1 then white2 else white3) else white1)
+  | .semitoneDown => some (if d.semitone < 0 then (if d.semitone = -1 then white2 else white3) else white1)
+  | .mappingUp => some (if (d.mapping : Int) = (d.cfg.maps.length : Int) - 1 then white1 else white3)
+  | .mappingDown => some (if d.mapping = 0 then white1 else white3)
+  | .channelUp => some (if d.channel = 15 then third (chanColor d.channel) else chanColor d.channel)
+  | .channelDown => some (if d.channel = 0 then third (chanColor d.channel) else chanColor d.channel)
+  | .multinote => some white1
+  | _ => none
+
+theorem indicator_spec (d : Dev) (a : Action) : lastPaint (actionPaints d) a = indicator d a := by
+  have h := lastPaint_values d
+  cases a <;> simp only [indicator] <;> simp only [h]
+
+/-- **indicator keys**: the LED of the key an action is bound to — when that key is not also a note key of the current
+    mapping (such an LED is never highlighted: `unlit_of_no_key`) — shows the indicator colour of the device's *current* octave, semitone,
+    mapping or channel: one step = `white2`, more = `white3`, none = `white1`; the channel keys show the channel colour,
+    dimmed at the end of the range; panic is red.  For every state, configuration and LED layout. -/
+theorem C17_action_key (d : Dev) (devName : String) (leds : List String) (shifted : RGB × RGB × RGB) (m : Mapping)
+    (hm : d.curMap = some m) (hn : (akeys d.cfg.actions).Nodup) (a : Action) (c : RGB) (hc : indicator d a = some c)
+    (i : Nat) (hi : actionLed d.cfg leds a = some i)
+    (hno : ∀ q ∈ m.midi, q.1.1 = "" → alookup q.1.2 (indexMap leds) ≠ some i) :
+    ∃ l, frame true d devName leds shifted = .ok l ∧ l[i]? = some c := by
+  have hun := unlit_of_no_key d leds m i hno
+  obtain ⟨base, l, hb, hl, hlen, -, hs⟩ := C17_refinement d devName leds shifted m hm
+  obtain ⟨strip, pre, -, hpre, -, hplen, hpi⟩ := framePre_action d devName leds hn a i hi
+  have hil : i < leds.length := by
+    unfold actionLed at hi
+    cases hk : actionCode d.cfg a with
+    | none => rw [hk] at hi; cases hi
+    | some k => rw [hk] at hi; exact indexMap_lt leds k i hi
+  obtain ⟨pre', base', hpre', hb', -, -, hbi⟩ := frameBase_other d devName leds shifted m i hil hno
+  rw [hb] at hb'; cases hb'
+  rw [hpre] at hpre'; cases hpre'
+  refine ⟨l, hl, ?_⟩
+  have hib : i < base.length := hlen ▸ hil
+  rw [hs i hib, highlight_unlit d leds m _ i hun]
+  rw [List.getElem?_eq_getElem hib, hpi, indicator_spec, hc] at hbi
+  simpa using hbi
+
+/-- the octave-up key after the octave was raised once / more than once / not at all -/
+theorem C17_octave_up_key (d : Dev) (devName : String) (leds : List String) (shifted : RGB × RGB × RGB) (m : Mapping)
+    (hm : d.curMap = some m) (hn : (akeys d.cfg.actions).Nodup)
+    (i : Nat) (hi : actionLed d.cfg leds .octaveUp = some i)
+    (hno : ∀ q ∈ m.midi, q.1.1 = "" → alookup q.1.2 (indexMap leds) ≠ some i) :
+    ∃ l, frame true d devName leds shifted = .ok l ∧
+      l[i]? = some (if d.octave ≤ 0 then white1 else if d.octave = 1 then white2 else white3) := by
+  apply C17_action_key d devName leds shifted m hm hn .octaveUp _ _ i hi hno
+  simp only [indicator]
+  congr 1
+  by_cases h : d.octave > 0
+  · have : ¬ d.octave ≤ 0 := by omega
+    simp [h, this]
+  · have : d.octave ≤ 0 := by omega
+    simp [h, this]
+
 /-! ### non-vacuity: a concrete layout (three LEDs in an order different from the key codes), a held key, MIDI-input
     notes on the current channel and on two other channels -/
 
@@ -265,6 +352,10 @@ example : Unlit (Dev.init exC) exLeds exM 1 := by
 example : ∃ l, frame true (Dev.init exC) "kbd" exLeds exShift = .ok l ∧ l[1]? = some ⟨3, 3, 3⟩ :=
   C17_pitch_class (Dev.init exC) "kbd" exLeds exShift exM (by rfl) (by decide) (("", 30), ⟨60, 0⟩) (by decide) rfl 1
     (by decide) (by refine ⟨by decide, ?_⟩; intro ch; simp [Dev.init, lit]) (by decide) (by decide)
+
+/-- the hypotheses of `C17_action_key` hold for F1 (octave up) in the example state: `white2` at LED 2 -/
+example : ∃ l, frame true exD "kbd" exLeds exShift = .ok l ∧ l[2]? = some white2 :=
+  C17_action_key exD "kbd" exLeds exShift exM (by rfl) (by decide) .octaveUp white2 (by decide) 2 (by decide) (by decide)
 
 /-! ### the MIDI-input tracker -/
 
